@@ -85,6 +85,9 @@ def rules(ck, P):
     adts = P.adt_suffix("::limited_cache::LimitedCache")
     if not ck.anchor("C20", "LimitedCache type", adts, 1):
         return
+    # transparency as the two readers see it: what they cache under a key is a function of that key (shared with C16 / C13)
+    from . import c16 as _c16
+    _c16._cache_key_rules(ck, P)
     adt = adts[0]
     Q = adt["q"]
     fields = {f["name"]: f for f in adt["variants"][0]["fields"]}
